@@ -897,9 +897,9 @@ func main() {
 		out.Close(a.Stats)
 		return
 	}
-	depth, nrand, frac, frac2 := 3, 1000, 20, 2
+	depth, nrand, frac, frac2 := 3, 800, 24, 3
 	if a.Tier == "thorough" {
-		depth, nrand, frac, frac2 = 4, 20000, 2, 1
+		depth, nrand, frac, frac2 = 4, 20000, 16, 1
 	}
 	t0 := time.Now()
 	// every member path x every read route, every call: one interpreter, full world
